@@ -91,8 +91,8 @@ pub fn main_leg() -> i32 {
 				async move {
 					let t0 = Instant::now();
 					while logged(&pf).len() < n {
-						if t0.elapsed() > Duration::from_secs(10) {
-							return Err(format!("child #{n} did not report its pid within 10 s"));
+						if t0.elapsed() > Duration::from_secs(30) {
+							return Err(format!("child #{n} did not report its pid within 30 s"));
 						}
 						tokio::time::sleep(Duration::from_millis(10)).await;
 					}
@@ -114,8 +114,8 @@ pub fn main_leg() -> i32 {
 					Step::ContinueRaw => job.control(Control::ContinueTryGracefulRestart),
 					Step::Delete => job.delete(),
 				};
-				if tokio::time::timeout(Duration::from_secs(10), ticket).await.is_err() {
-					pr.lock().unwrap().push(format!("step {i} ({st:?}): ticket did not resolve within 10 s"));
+				if tokio::time::timeout(Duration::from_secs(30), ticket).await.is_err() {
+					pr.lock().unwrap().push(format!("step {i} ({st:?}): ticket did not resolve within 30 s"));
 					break;
 				}
 				let took = t0.elapsed();
